@@ -75,13 +75,22 @@ Fixpoint handles (P : msg -> bool) (evs : list event) (s : state) : nat :=
 
 (** * the four outcomes of HandleEnvelop for a user message *)
 Inductive outcome := OutProcessed | OutZombie | OutDeadLetter | OutDropped.
-(** computed from the actor record as HandleEnvelop sees it (a user envelope is never an OnKill) *)
-Definition user_outcome (x : actor) : outcome :=
+Definition is_kill_msg (m : msg) : bool := match m with MKill _ _ => true | _ => false end.
+(** HandleEnvelop's "killingOrKilled" for envelope [e] *)
+Definition is_dead (x : actor) (e : envelope) : bool :=
+  match a_state x with Killed => true | Running => false | Killing => negb (e_sys e) && negb (is_kill_msg (e_msg e)) end.
+Definition user_outcome (x : actor) (e : envelope) : outcome :=
   if a_zombie x then OutZombie
-  else match a_state x with
-       | Running => OutProcessed
-       | _ => match a_parent x with Some _ => OutDeadLetter | None => OutDropped end
-       end.
+  else if is_dead x e then match a_parent x with Some _ => OutDeadLetter | None => OutDropped end
+  else OutProcessed.
+
+(** the actor record when HandleEnvelop starts (consumer inside the handler), and when a handler that sent
+    nothing has returned with [cur] as the context's current envelope *)
+Definition busy (x : actor) : actor := set_mb x (a_sq x) (a_uq x) (a_paused x) (CBusy (mode_top x)) (a_cur x).
+Definition handled (x : actor) (cur : option envelope) : actor :=
+  upd_pend (set_mb x (a_sq x) (a_uq x) (a_paused x) C1 cur) [].
+(** the dead-letter report HandleEnvelop sends to the guard for [e] *)
+Definition dead_report (e : envelope) : list instr := [IEnqMb 0 (dead_env e); IEnqDone; IEndHandler].
 
 Definition count_obs (f : obs -> bool) (l : list obs) : nat := length (filter f l).
 Definition is_dl_of (P : msg -> bool) (o : obs) : bool := match o with ODeadLetter _ m => P m | _ => false end.
